@@ -123,6 +123,17 @@ def worker(job):
             if cands and rng.random() < 0.3:
                 root = rng.choice(cands)
                 st.inc("multi_component_starting_points")
+            if kind == "-exec" and top == "r" and shape != "relative-tool" and rng.random() < 0.3:
+                # the starting point spelled with a trailing slash, a doubled slash, './' or '/.': {} is the path as find prints it,
+                # not a tidied-up version of it
+                if root == "r":
+                    root = rng.choice(["r/", "r//", "./r", "r/." if shape != "then-plus" else "r/", ".//r/"])
+                else:
+                    head, tail = root.split("/", 1)
+                    isdir = any(n.path == root and n.kind == "d" for n in nodes)
+                    root = rng.choice([head + "//" + tail, head + "/./" + tail, root + ("/" if isdir else ""), "./" + root, head + "/" + tail.replace("/", "//")])
+                st.inc("starting_points_spelled_untidily")
+                st.add("root_spellings", root if len(root) < 8 else "long")
             if shape == "unexecutable-command":
                 bd = os.path.join(base, "verif-badcmd-%d" % t)
                 os.makedirs(bd, exist_ok=True)
